@@ -296,8 +296,11 @@ func vh_C10_cookie_roundtrip() {
 	}
 	req := vReq("app.example")
 	req.AddCookie(&http.Cookie{Name: set[0].Name, Value: set[0].Value})
-	got, lerr := store.Load(req)
 	expireSec := int(store.Cookie.Expire / time.Second)
+	if (age >= expireSec-2 && age <= expireSec+2) || (age >= -302 && age <= -298) {
+		verifIdealOnly() // at a window edge the verdict depends on the sub-second wall clock: not sampled natively
+	}
+	got, lerr := store.Load(req)
 	if lerr == nil {
 		verifReach("loaded")
 		verifAssert("C09.cookie.not-past-lifetime-from-creation", age < expireSec+1 && age > -301)
